@@ -1,0 +1,7 @@
+//go:build !verif
+
+package stream
+
+import "github.com/streamingfast/bstream"
+
+func verifFileSourceOptions() []bstream.FileSourceOption { return nil }
